@@ -92,6 +92,8 @@ def run(repo, report, tier):
     report.rule("C18.R6", "an error parameter of 1 or more is divided by the number of non-N bases of the normalised (upper-cased, I->N) adapter sequence", "absolute error counts are converted with the wrong length")
     report.rule("C18.R7", "every exception class raised while parsing specifications / constructing adapters is caught by adapters_from_args and converted to CommandLineError (exit status 2 by C12.R3)",
                 "an invalid specification ends in a traceback instead of an error message and exit status 2")
+    report.rule("C18.R8", "brace notation: expand_braces is the four-state machine (start / after text / after '{' / after the count): x{n} replaces the last character written by n copies of it, 0 <= n <= 10000; a brace in any other position, a non-terminated expression and a count that is not an integer raise ValueError (caught by C18.R7); the expansion is applied to the sequence before the adapter is built",
+                "A{3} is not expanded to AAA, or a malformed brace expression is silently accepted")
     report.guard("C18.R1", "argparse", r1_options, repo, report)
     report.guard("C18.R2", "class table", r2_classes, repo, report)
     report.guard("C18.R3", "parameters", r3_parameters, repo, report)
@@ -99,6 +101,7 @@ def run(repo, report, tier):
     report.guard("C18.R5", "file notation", r5_file, repo, report)
     report.guard("C18.R6", "absolute errors", r6_abs_errors, repo, report)
     report.guard("C18.R7", "rejections", r7_rejections, repo, report)
+    report.guard("C18.R8", "brace expansion", r8_braces, repo, report)
     report.notes.append("Not decided: the full grammar x global options cross product as strings; brace expansion as a state machine (C18.R8 of the design) is left undecided.")
 
 
@@ -597,3 +600,97 @@ def r7_rejections(repo, report):
                 report.ob("C18.R7", f"{q}: raise {cls}", ok, facts={"statement": src(x)[:100], "caught": sorted(caught)}, expected="an exception class caught by adapters_from_args", loc=repo.loc(x),
                           why="" if ok else f"{cls} is not converted to a CommandLineError: the user sees a traceback")
     report.floor("C18.R7", "raise statements on the specification path", n, 25)
+
+
+def r8_braces(repo, report):
+    fn = repo.func("parser", "expand_braces")
+    ps = params(fn)
+    body = strip_docstring(fn.body)
+    loops = [n for n in body if isinstance(n, ast.For)]
+    if len(loops) != 1 or not isinstance(loops[0].target, ast.Name):
+        raise Unrecognised("expand_braces: token loop not found", repo.loc(fn))
+    lp = loops[0]
+    tok = lp.target.id
+    # tokens: the specification split at braces, braces kept
+    it = lp.iter
+    ok_split = isinstance(it, ast.Call) and chain(it.func) == "re.split" and len(it.args) == 2 and isinstance(it.args[0], ast.Constant) and it.args[0].value in ("([{}])", "([}{])") and src(it.args[1]) == ps[0]
+    report.ob("C18.R8", "expand_braces: tokens", ok_split, facts={"iterates": src(it)}, expected=f"re.split('([{{}}])', {ps[0]}): text runs and single braces alternate", loc=repo.loc(lp))
+    # locals by role: the state is the variable tested with isinstance(.., int); the output is what is returned
+    st_names = {src(x.args[0]) for x in ast.walk(fn) if isinstance(x, ast.Call) and chain(x.func) == "isinstance" and len(x.args) == 2 and src(x.args[1]) == "int" and isinstance(x.args[0], ast.Name)}
+    rets = [n.value for n in body if isinstance(n, ast.Return)]
+    if len(st_names) != 1 or len(rets) != 1 or not isinstance(rets[0], ast.Name):
+        raise Unrecognised("expand_braces: state / result variables not found", repo.loc(fn))
+    S, R = st_names.pop(), rets[0].id
+    states = {"start": (Const(None), {}), "text": (Obj("PREV", nonnull=True), {"eq:PREV:'{'": False, "isinstance:PREV:int": False, "eq:PREV:'}'": False}),
+              "open": (Const("{"), {}), "count": (Lin.atom("N"), {"eq:N:'{'": False, "isinstance:N:int": True, "eq:N:'}'": False})}
+    toks = {"text": (Obj("TOK", nonnull=True), {"eq:TOK:''": False, "eq:TOK:'{'": False, "eq:TOK:'}'": False}), "{": (Const("{"), {}), "}": (Const("}"), {})}
+    want = {("start", "text"): ("text", "append"), ("start", "{"): "raise", ("start", "}"): "raise",
+            ("text", "{"): ("open", "keep"), ("text", "}"): "raise", ("text", "text"): "raise",
+            ("count", "}"): ("start", "repeat"), ("count", "{"): "raise", ("count", "text"): "raise"}
+    bad = []
+    n = 0
+    for sn, (sv, sval) in states.items():
+        for tn, (tv, tval) in toks.items():
+            rows = explore(repo, lp.body, {S: sv, tok: tv, R: Obj("OUT", nonnull=True)}, inline=False, loop_mode="forbid", initial=dict(sval, **tval))
+            n += len(rows)
+            for r in rows:
+                out = vkey(r.env.get(R))
+                nxt = vkey(r.env.get(S))
+                if sn == "open":
+                    # whatever follows '{' goes through int(): a brace or a non-number raises ValueError there (builtin); a number must lie in [0, 10000]
+                    arg = "TOK" if tn == "text" else f"'{tn}'"
+                    from ..absint import entails
+
+                    X = Lin.atom(f"int({arg})")
+                    if not any(k.startswith("sign:") and f"int({arg})" in k for k in r.valuation):
+                        bad.append((sn, tn, "the token after '{' is not converted with int() and range-checked", r.describe()["valuation"]))
+                        continue
+                    inside = entails(r.valuation, ast.GtE(), X, Lin.k(0)) is True and entails(r.valuation, ast.LtE(), X, Lin.k(10000)) is True
+                    outside = entails(r.valuation, ast.Lt(), X, Lin.k(0)) is True or entails(r.valuation, ast.Gt(), X, Lin.k(10000)) is True
+                    if inside and (r.exit[0] != "fall" or nxt != f"int({arg})" or out != "OUT"):
+                        bad.append((sn, tn, "a count in [0, 10000] must become the state", r.exit[0], r.describe()["valuation"]))
+                    elif outside and r.exit[0] != "raise":
+                        bad.append((sn, tn, "a count outside [0, 10000] must raise", r.describe()["valuation"]))
+                    elif not inside and not outside:
+                        bad.append((sn, tn, "the count is accepted or rejected without having been compared with both 0 and 10000", r.exit[0], r.describe()["valuation"]))
+                    continue
+                w = want[(sn, tn)]
+                if w == "raise":
+                    if r.exit[0] != "raise":
+                        bad.append((sn, tn, "must raise", r.exit[0], nxt))
+                    continue
+                wstate, weff = w
+                wnext = {"text": "TOK", "open": "'{'", "start": "None"}[wstate]
+                wout = {"append": (Lin.atom("OUT") + Lin.atom("TOK")).key(), "keep": "OUT", "repeat": (Lin.atom("N") * Lin.atom("OUT[-1]") + Lin.atom("OUT[:-1]")).key()}[weff]
+                if r.exit[0] != "fall" or nxt != wnext or out != wout:
+                    bad.append((sn, tn, f"expected next state {wstate} and output {weff}", r.exit[0], nxt, out))
+    # the repeated character replaces the last one written, in place (order of the concatenation)
+    rep = [x for x in ast.walk(lp) if isinstance(x, ast.Assign) and chain(x.targets[0]) == R and isinstance(x.value, ast.BinOp) and isinstance(x.value.op, ast.Add)]
+    ok_order = len(rep) == 1 and src(rep[0].value.left) == f"{R}[:-1]" and isinstance(rep[0].value.right, ast.BinOp) and isinstance(rep[0].value.right.op, ast.Mult) and {src(rep[0].value.right.left), src(rep[0].value.right.right)} == {f"{R}[-1]", S}
+    if not ok_order:
+        bad.append(("count", "}", "the output must be output[:-1] + output[-1] * count", src(rep[0].value) if rep else None))
+    report.ob("C18.R8", "expand_braces: transition table", not bad, facts={"rows": n, "problems": [str(b)[:240] for b in bad[:3]]},
+              expected="start: text -> text (written); text: '{' -> open; open: int(token) in [0, 10000] -> count; count: '}' -> start with the last character repeated count times; everything else raises", loc=repo.loc(lp), cases=n,
+              why=str(bad[0])[:220] if bad else "")
+    # end of input: only 'start' and 'text' are accepting
+    tail = body[body.index(lp) + 1:]
+    bad = []
+    for sn, (sv, sval) in states.items():
+        rows = explore(repo, tail, {S: sv, R: Obj("OUT", nonnull=True)}, inline=False, initial=dict(sval))
+        for r in rows:
+            accept = sn in ("start", "text")
+            if accept and not (r.exit[0] == "return" and vkey(r.exit[1]) == "OUT"):
+                bad.append((sn, "must return the output", r.exit[0]))
+            if not accept and r.exit[0] != "raise":
+                bad.append((sn, "an unterminated expression must raise", r.exit[0]))
+    report.ob("C18.R8", "expand_braces: end of input", not bad, facts={"problems": [str(b) for b in bad[:3]]}, expected="return the output in the states start / after text; raise after '{' or after the count", loc=repo.loc(fn), cases=4)
+    inits = {chain(x.targets[0]): src(x.value) for x in body[:body.index(lp)] if isinstance(x, ast.Assign)}
+    report.ob("C18.R8", "expand_braces: initial state", inits.get(S) == "None" and inits.get(R) == "''", facts=inits, expected="state None, output ''", loc=repo.loc(fn))
+    raised = {chain(x.exc.func) if isinstance(x.exc, ast.Call) else chain(x.exc) for x in ast.walk(fn) if isinstance(x, ast.Raise) and x.exc is not None}
+    report.ob("C18.R8", "expand_braces raises ValueError only", raised == {"ValueError"}, facts={"raises": sorted(map(str, raised))}, expected="ValueError (converted by adapters_from_args, C18.R7)", loc=repo.loc(fn))
+    # applied to the sequence before the class is chosen
+    c, pa = repo.need_method("AdapterSpecification", "parse")
+    cs = [x for x in calls(pa) if chain(x.func) == "expand_braces"]
+    asg = [n_ for n_ in ast.walk(pa) if isinstance(n_, ast.Assign) and n_.value in cs]
+    ok = len(cs) == 1 and len(asg) == 1 and isinstance(asg[0].targets[0], ast.Name) and src(cs[0].args[0]) == asg[0].targets[0].id
+    report.ob("C18.R8", "AdapterSpecification.parse expands braces in the sequence", ok, facts={"call": src(asg[0]) if asg else None}, expected="spec = expand_braces(spec)", loc=repo.loc(pa))
